@@ -24,7 +24,7 @@ from .. import emit as E
 from .. import guards as G
 from ..model import AnalysisError, EnumMember, Unknown, dotted, src
 
-TECHNIQUE = "table extraction from the AST + checker-side Pauli/Bell semantics; reaching-emitted-definition rule on the qubit operand; control-dependence on expect_phi_plus (static analysis)"
+TECHNIQUE = "table extraction from the AST + checker-side Pauli/Bell semantics; reaching-emitted-definition rule on the qubit operand; control-dependence on expect_phi_plus; abstract interpretation of small functions over an enumerated finite domain by the checker's own AST interpreter (static analysis)"
 ENGINES = ["model", "emit", "circuit"]
 EXPLANATION = (
     "The three if_eq(BellState.X.value) arms of the correction emitter are read from the AST, their rotation lists multiplied out and "
